@@ -424,3 +424,29 @@ def _rename(c, params):
     if c and c[0] == "var":
         return ("var", ids.get(c[1], c[2]))
     return tuple(_rename(x, params) for x in c)
+
+
+# ---- who-may-write with rename awareness -------------------------------------------------
+
+def check_writers(ctx, rep, rid, field_q, allowed, label, exclude_class=None, ignore_ctor_init=True):
+    """Writers of member field_q must be inside `allowed` (short function names -> reason).
+    If an allow-listed function no longer exists at all while an unknown writer appears, the table is stale
+    (probably a rename): that is analysis-broken (UNKNOWN), not a violation. Returns the list of writes."""
+    ws = field_writes(ctx, field_q, exclude_class=exclude_class)
+    if ignore_ctor_init:
+        ws = [(f, x, u) for f, x, u in ws if u.why != "constructor initialiser" or f.short in allowed or True]
+    existing = {f.short for f in ctx.prog.funcs.values()}
+    bad = [(f, x, u) for f, x, u in ws if f.short not in allowed and not (ignore_ctor_init and u.why == "constructor initialiser")]
+    vanished = [a for a in allowed if a not in existing]
+    if bad and vanished:
+        f, x, u = bad[0]
+        rep.unknown(rid, u.node, f, "%s written in %s" % (label, f.short),
+                    "allow-listed writer(s) %s no longer exist and %s writes the member: renamed? the table in the rule must be re-confirmed" % (
+                        vanished, sorted({b[0].short for b in bad})))
+    elif bad:
+        for f, x, u in bad:
+            rep.violation(rid, u.node, f, "write to %s in %s" % (label, f.short), "%s (%s); allowed writers: %s" % (u.why, u.kind, sorted(allowed) or "none"),
+                          key="%s|writes %s" % (f.short, label))
+    else:
+        rep.holds(rid, "-", None, "%s writers" % label, "%s" % (sorted({f.short for f, _x, _u in ws}) or "none"))
+    return ws
